@@ -24,6 +24,7 @@ struct World {
     dags: HashMap<String, Vec<git2::Oid>>,
     refname: Qualified<'static>,
     counter: usize,
+    current: Vec<Option<git2::Oid>>,
 }
 
 impl World {
@@ -45,6 +46,7 @@ impl World {
             dags: HashMap::new(),
             refname: radicle_git_ext::ref_format::qualified!("refs/heads/master").to_owned(),
             counter: 0,
+            current: Vec::new(),
         }
     }
 
@@ -71,21 +73,37 @@ impl World {
         oids
     }
 
-    /// Point each delegate's reference at its tip (0 = no reference) and compute the quorum through
-    /// the public API. Returns 0 for "no head", else the 1-based commit index; -1 for a head that is
-    /// not a commit of the graph.
+    /// Point each delegate's reference at its tip (0 = no reference). Only references that change
+    /// are written.
+    fn set_tips(&mut self, oids: &[git2::Oid], tips: &[usize]) {
+        let raw = self.repo.raw();
+        for d in 0..self.dids.len() {
+            let want = tips.get(d).copied().filter(|t| *t != 0).map(|t| oids[t - 1]);
+            if self.current.get(d).copied().flatten() == want && self.current.len() > d {
+                continue;
+            }
+            let name = self.refname.with_namespace((&*self.dids[d]).into());
+            match want {
+                None => {
+                    if let Ok(mut r) = raw.find_reference(name.as_str()) {
+                        r.delete().unwrap();
+                    }
+                }
+                Some(oid) => {
+                    raw.reference(name.as_str(), oid, true, "verif").unwrap();
+                }
+            }
+            if self.current.len() <= d {
+                self.current.resize(d + 1, None);
+            }
+            self.current[d] = want;
+        }
+    }
+
+    /// Compute the quorum through the public API. Returns 0 for "no head", else the 1-based commit
+    /// index; -1 for a head that is not a commit of the graph.
     fn quorum(&mut self, oids: &[git2::Oid], tips: &[usize], thr: usize) -> (i64, String) {
         let raw = self.repo.raw();
-        for (d, t) in tips.iter().enumerate() {
-            let name = self.refname.with_namespace((&*self.dids[d]).into());
-            if *t == 0 {
-                if let Ok(mut r) = raw.find_reference(name.as_str()) {
-                    r.delete().unwrap();
-                }
-            } else {
-                raw.reference(name.as_str(), oids[*t - 1], true, "verif").unwrap();
-            }
-        }
         let delegates = NonEmpty::from_vec(self.dids[..tips.len()].to_vec()).unwrap();
         let canonical = Canonical::reference(&self.repo, &self.refname, &delegates, thr).expect("reference");
         match canonical.quorum(raw) {
@@ -138,6 +156,7 @@ fn main() {
                             let tips = usizes(&c["tips"]);
                             let exp: Vec<i64> = c["exp"].as_array().unwrap().iter().map(|x| x.as_i64().unwrap()).collect();
                             let oids = w.commits(&par);
+                            w.set_tips(&oids, &tips);
                             for (ti, e) in exp.iter().enumerate() {
                                 let thr = ti + 1;
                                 let res = guard(|| w.quorum(&oids, &tips, thr));
@@ -209,6 +228,7 @@ fn main() {
                 let pool: Vec<usize> = (0..rng.usize(1..=4)).map(|_| rng.usize(0..=nc)).collect();
                 let tips: Vec<usize> = (0..nd).map(|_| pool[rng.usize(0..pool.len())]).collect();
                 let oids = w.commits(&par);
+                w.set_tips(&oids, &tips);
                 let res: Vec<i64> = (1..=nd)
                     .map(|thr| match guard(|| w.quorum(&oids, &tips, thr)) {
                         Ok((a, _)) => a,
